@@ -8,6 +8,27 @@ import sys
 ROOT = os.path.dirname(os.path.dirname(os.path.abspath(__file__)))
 
 CLAIMED = {
+    "C11": dict(
+        category="model_checking",
+        text="MultiTrace.tla states the requirement on every emitted solution of a multi-window continuous query (each WINDOW block's variables "
+             "answer that block over a content this very window reported, plus derived facts; the static part answers over the static data "
+             "only). Real two-window engines (shared / disjoint vocabulary, static data, rules, four synchronisation policies, single and "
+             "multi-threaded with perturbed schedules) are run and TLC judges every emission against the fire events recorded under the store lock.",
+        design_ref="DESIGN.md section 5 (C11)",
+        note="Trusted: TLC, hooks, recording harness. No design-level MultiImpl model (DESIGN.md L1) is checked - the claim rests on trace "
+             "validation of sampled scenarios; reported contents come from the hook's fire events rather than from a separate probe window.",
+        technique="TLA+ requirement checked by TLC on hook-recorded traces of multi-window engines under perturbed schedules (trace validation)",
+    ),
+    "C16": dict(
+        category="exploration",
+        text="Syntax.tla is the concrete syntax of the fragment as a printer state machine; TLC -simulate prints seeded syntax trees with "
+             "nondeterministic separators, comments, keyword case and equivalent spellings, and with single structured faults. Every text is "
+             "parsed by the real parsers; TLC (SyntaxTrace.tla) requires acceptance, full consumption and structural equality modulo the "
+             "documented normalisations for un-faulted texts and panic-freedom for faulted ones.",
+        design_ref="DESIGN.md section 5 (C16) and section 6",
+        note="Covers the structured request family only, NOT all byte strings (stated limit). Level exploration: sampled printings, no exhaustive space.",
+        technique="TLA+ printer state machine simulated by TLC (spec-to-impl replay) + TLC trace validation of parser outcomes",
+    ),
     "C10": dict(
         category="model_checking",
         text="TLC checks a code-shaped model of the single-window processor and the MultiThread worker (FIFO channel, evict / load / materialise / "
